@@ -12,7 +12,11 @@ Streams (DESIGN 3.2):
          back conversions (inversed, misc.cart_to_frac)  vs the fractional input              ortho_metric, ortho_inverse, …)
   dist   atomic_distance, |cart1 - cart2|                vs spec sqrt(dᵀ G d)                (distance_agrees)
   ueq    Atom.ueq                                        vs spec ⅓ Σ Uij a*i a*j (ai·aj)     (ueq_is_third_trace)
-  npd    Atom.is_npd()                                   vs exact Sylvester test in Rat       (npd_iff; QR certificate per case)
+  npd    Atom.is_npd()                                   vs exact Sylvester test in Rat       (is_npd_iff, npd_iff)
+  edit   history on the parsed objects: read -> edits of an atom's displacement parameters / coordinates through every
+         public way (atom.uvals = …, atom.uvals[k] = …, set_uvals, to_isotropic, atom.frac_coords = …, Shelxfile.add_atom)
+         -> second query of cart_coords / ueq / is_npd() / distances of ALL atoms, compared with the spec evaluated on the
+         NEW values (edited atoms) resp. the unchanged values (all other atoms)                       (history_coherent)
 The oracle is the driver's spec (metric tensor only); `impl vs spec` is a property failure, `impl vs model` (the Float
 instance of the mirrored code) a correspondence failure.  Nothing but the observables of the statement is compared.
 """
@@ -152,6 +156,19 @@ def make_u(rng, kind, cell=None):
         p, q = rng.randint(1, 9), rng.randint(1, 9)
         k = rng.choice([0.001, 0.002, 0.0005])
         return [round(p * p * k, 8), round(q * q * k, 8), round(rng.uniform(0.01, 0.1), 5), 0.0, 0.0, round(p * q * k, 8)]
+    elif kind == 'blocksing':   # a 2x2 principal block exactly singular (its minor is 0 in exact arithmetic, rounding noise in
+        # floats), the tensor itself clearly not positive definite: the decision must not hang on the sign of that minor
+        p, q = rng.randint(1, 9), rng.randint(1, 9)
+        k = rng.choice([0.001, 0.002, 0.0005, 0.00025])
+        g = round(rng.choice([-1, -1, 1]) * rng.uniform(0.002, 0.06), 5)
+        e, f = (0.0, 0.0) if rng.random() < 0.5 else (round(rng.uniform(-0.02, 0.02), 5), round(rng.uniform(-0.02, 0.02), 5))
+        a, d, b = round(p * p * k, 8), round(q * q * k, 8), round(p * q * k * rng.choice([1, -1]), 8)
+        which = rng.randrange(3)        # which pair of axes carries the singular block
+        if which == 0:
+            return [a, d, g, f, e, b]            # block (1,2)
+        if which == 1:
+            return [a, g, d, f, b, e]            # block (1,3)
+        return [g, a, d, b, f, e]                # block (2,3)
     elif kind == 'cancel':      # six values whose last four sum to exactly 0.0 in floats
         for _ in range(100):
             k = rng.choice([0.005, 0.01, 0.02, 0.004, 0.008, 0.0125])
@@ -168,7 +185,7 @@ def make_u(rng, kind, cell=None):
     return [round(v, nd) for v in sym_from_eigs(rng, e)]
 
 
-U_KINDS = ['pd', 'pd', 'pd', 'indef', 'indef', 'near', 'negdef', 'diag', 'singular', 'cancel', 'eqmod']
+U_KINDS = ['pd', 'pd', 'pd', 'indef', 'indef', 'near', 'negdef', 'diag', 'singular', 'cancel', 'eqmod', 'blocksing']
 
 
 def make_case(rng, cls=None, ukinds=None):
@@ -186,6 +203,53 @@ def make_case(rng, cls=None, ukinds=None):
     n = len(atoms)
     pairs = [[i, (i + 1) % n] for i in range(n)]
     return dict(cls=cls, cell=cell, atoms=atoms, pairs=pairs)
+
+
+EDIT_OPS = ['uvals', 'uvals', 'set_uvals', 'uvals_item', 'to_isotropic', 'frac_coords', 'frac_coords', 'add_atom', 'uvals_iso']
+
+
+def make_edits(rng, case):
+    """1-4 edits of the parsed atoms (several may hit the same atom: the last one counts)"""
+    n = len(case['atoms'])
+    edits = []
+    for _ in range(rng.randint(1, 4)):
+        op = rng.choice(EDIT_OPS)
+        i = rng.randrange(n)
+        if op in ('uvals', 'set_uvals'):
+            edits.append(dict(op=op, i=i, u=make_u(rng, rng.choice(['pd', 'indef', 'negdef', 'near', 'diag', 'eqmod', 'blocksing']), case['cell'])))
+        elif op == 'uvals_iso':
+            edits.append(dict(op='uvals', i=i, u=[round(rng.uniform(0.01, 0.2), 5), 0.0, 0.0, 0.0, 0.0, 0.0]))
+        elif op == 'uvals_item':
+            edits.append(dict(op=op, i=i, k=rng.randrange(6), v=round(rng.uniform(-0.08, 0.12), 5)))
+        elif op == 'to_isotropic':
+            edits.append(dict(op=op, i=i))
+        elif op == 'frac_coords':
+            edits.append(dict(op=op, i=i, xyz=[rcoord(rng), rcoord(rng), rcoord(rng)]))
+        else:
+            edits.append(dict(op='add_atom', xyz=[rcoord(rng), rcoord(rng), rcoord(rng)],
+                              u=make_u(rng, rng.choice(['pd', 'indef', 'diag']), case['cell'])))
+    return edits
+
+
+def final_state(case):
+    """what the edits mean (the API's own description): list of dict(xyz, u (six values), last_xyz / last_u = the
+    last op that set the coordinates / the displacement parameters)"""
+    st = [dict(xyz=list(a['xyz']), u=u_full(a['u']), last_xyz='parse', last_u='parse', orig=i) for i, a in enumerate(case['atoms'])]
+    for k, e in enumerate(case.get('edits') or []):
+        if e['op'] == 'add_atom':
+            st.append(dict(xyz=list(e['xyz']), u=list(e['u']), last_xyz='add_atom', last_u='add_atom', orig=None, edit=k))
+            continue
+        a = st[e['i']]
+        a['last_xyz' if e['op'] == 'frac_coords' else 'last_u'] = e['op']
+        if e['op'] in ('uvals', 'set_uvals'):
+            a['u'] = list(e['u'])
+        elif e['op'] == 'uvals_item':
+            a['u'][e['k']] = e['v']
+        elif e['op'] == 'to_isotropic':
+            a['u'] = [0.04, 0.0, 0.0, 0.0, 0.0, 0.0]
+        elif e['op'] == 'frac_coords':
+            a['xyz'] = list(e['xyz'])
+    return st
 
 
 # ------------------------------------------------------------------------------------------------
@@ -251,6 +315,48 @@ def observe_impl(case):
         out['pairs'].append(dict(
             dist=guard(lambda: float(atomic_distance(list(p1), list(p2), list(cl)))),
             cdist=(math.sqrt(sum((s - t) ** 2 for s, t in zip(c1, c2))) if isinstance(c1, list) and isinstance(c2, list) else 'raise')))
+    if case.get('edits'):
+        out['edit'] = guard(lambda: observe_after_edits(shx, atoms, cl, case))
+    return out
+
+
+def observe_after_edits(shx, atoms, cl, case):
+    """apply the edits to the parsed objects, then ask every atom again"""
+    from shelxfile.misc.dsrmath import atomic_distance
+    atoms = list(atoms)
+    for k, e in enumerate(case['edits']):
+        op = e['op']
+        if op == 'add_atom':
+            before = len(list(shx.atoms))
+            r = guard(lambda: shx.add_atom(name=f'X{k}', coordinates=list(e['xyz']), element='C', uvals=list(e['u'])))
+            now = list(shx.atoms)
+            if isinstance(r, str) or len(now) != before + 1:
+                return dict(error=f'add_atom: {r}, {len(now)} atoms after {before}')
+            new = [a for a in now if not any(a is b for b in atoms)]
+            atoms.append(new[0])
+            continue
+        a = atoms[e['i']]
+        if op == 'uvals':
+            a.uvals = list(e['u'])
+        elif op == 'set_uvals':
+            a.set_uvals(list(e['u']))
+        elif op == 'uvals_item':
+            a.uvals[e['k']] = e['v']
+        elif op == 'to_isotropic':
+            a.to_isotropic()
+        elif op == 'frac_coords':
+            a.frac_coords = list(e['xyz'])
+    out = dict(atoms=[], pairs=[])
+    for a in atoms:
+        out['atoms'].append(dict(cart=guard(lambda: as3(a.cart_coords)), frac=guard(lambda: as3(a.frac_coords)),
+                                 ueq=guard(lambda: float(a.ueq)), npd=guard(lambda: bool(a.is_npd()))))
+    n = len(atoms)
+    for i in range(n):
+        j = (i + 1) % n
+        c1, c2 = out['atoms'][i]['cart'], out['atoms'][j]['cart']
+        out['pairs'].append(dict(
+            dist=guard(lambda: float(atomic_distance(list(atoms[i].frac_coords), list(atoms[j].frac_coords), list(cl)))),
+            cdist=(math.sqrt(sum((s - t) ** 2 for s, t in zip(c1, c2))) if isinstance(c1, list) and isinstance(c2, list) else 'raise')))
     return out
 
 
@@ -300,10 +406,24 @@ def evaluate(ctx, cases, stream=None):
         reqs.append(dict(p='C12', op='cell', cell=case['cell'], pts=[a['xyz'] for a in case['atoms']],
                          pairs=[[case['atoms'][i]['xyz'], case['atoms'][j]['xyz']] for i, j in case['pairs']],
                          us=[u_full(a['u']) for a in case['atoms']]))
+    nreq = len(reqs)
+    finals = {}
+    for ci, case in enumerate(cases):
+        if case.get('edits'):
+            st = final_state(case)
+            n = len(st)
+            finals[ci] = (st, len(reqs))
+            reqs.append(dict(p='C12', op='cell', cell=case['cell'], pts=[a['xyz'] for a in st],
+                             pairs=[[st[i]['xyz'], st[(i + 1) % n]['xyz']] for i in range(n)], us=[a['u'] for a in st]))
+            for i, a in enumerate(st):      # the model of the object under the same history, atom by atom
+                reqs.append(hist_request(case, a, i))
     ans = ctx.driver.batch(reqs)
-    for s in ('cell', 'cart', 'dist', 'ueq', 'npd'):
+    for s in ('cell', 'cart', 'dist', 'ueq', 'npd', 'edit'):
         ctx.stream(s)
-    for case, obs, r in zip(cases, impls, ans):
+    for ci, (case, obs, r) in enumerate(zip(cases, impls, ans[:nreq])):
+        if ci in finals and not (isinstance(obs, str) or 'error' in obs):
+            k = finals[ci][1]
+            check_edits(ctx, case, finals[ci][0], obs.get('edit'), ans[k], ans[k + 1:k + 1 + len(finals[ci][0])])
         cls = case.get('cls', '?')
         obl = cell_tag(case)
         base = dict(cls=cls, cell=case['cell'])
@@ -414,9 +534,102 @@ def evaluate(ctx, cases, stream=None):
                 ctx.fail('C12|npd|model', f'is_npd: implementation {o["npd"]}, model {ru["npd"]} for U = {u}', pl, kind='correspondence')
 
 
+def hist_request(case, a, i):
+    if a['orig'] is None:
+        e0 = case['edits'][a['edit']]
+        return dict(p='C12', op='hist', cell=case['cell'], xyz=e0['xyz'], u=e0['u'], new=True, edits=[])
+    es = []
+    for e in case['edits']:
+        if e['op'] == 'add_atom' or e['i'] != i:
+            continue
+        if e['op'] in ('uvals', 'set_uvals'):
+            es.append(dict(op=e['op'], u=e['u']))
+        elif e['op'] == 'uvals_item':
+            es.append(dict(op='item', k=e['k'], v=e['v']))
+        elif e['op'] == 'to_isotropic':
+            es.append(dict(op='uvals', u=[0.04, 0.0, 0.0, 0.0, 0.0, 0.0]))
+        else:
+            es.append(dict(op='frac', xyz=e['xyz']))
+    o = case['atoms'][a['orig']]
+    return dict(p='C12', op='hist', cell=case['cell'], xyz=o['xyz'], u=u_full(o['u']), new=False, edits=es)
+
+
+def check_edits(ctx, case, st, obs, r, hist):
+    """second query after the edits: every atom against the spec on its CURRENT values"""
+    cls = case.get('cls', '?')
+    obl = cell_tag(case)
+    edits = case['edits']
+
+    def sub(idx):
+        """minimal history: the atoms involved and the edits that touch them"""
+        idx = list(dict.fromkeys(idx))
+        keep = [i for i in idx if st[i]['orig'] is not None] or [0]
+        remap = {i: k for k, i in enumerate(keep)}
+        es = []
+        for k, e in enumerate(edits):
+            if e['op'] == 'add_atom':
+                if any(st[i].get('edit') == k for i in idx):
+                    es.append(e)
+            elif e['i'] in remap:
+                es.append(dict(e, i=remap[e['i']]))
+        return dict(cls=cls, cell=case['cell'], atoms=[case['atoms'][st[i]['orig']] for i in keep], pairs=[], edits=es)
+
+    if isinstance(obs, str) or obs is None or 'error' in obs:
+        ctx.fail(f'C12|edit|history|{obs if isinstance(obs, str) else "error"}'[:80],
+                 f'history {edits} on the parsed atoms failed: {obs}', dict(case=dict(case, pairs=[]), stream='edit', actual=obs))
+        return
+    ops = sorted({e['op'] for e in edits})
+    ctx.count(['edit', case['cell'], [a['xyz'] for a in case['atoms']], edits], nontrivial=True, tags=['edit'] + ['op=' + o for o in ops],
+              sample=dict(stream='edit', cell=case['cell'], edits=edits[:2], after=[dict(ueq=o['ueq'], npd=o['npd']) for o in obs['atoms'][:2]]))
+    for i, (a, o, rp, ru, hm) in enumerate(zip(st, obs['atoms'], r['pts'], r['us'], hist)):
+        tag = f'xyz-by={a["last_xyz"]}'
+        if [float(t) for t in hm['spec_frac']] != [float(t) for t in a['xyz']] or [float(t) for t in hm['spec_uvals']] != [float(t) for t in a['u']]:
+            raise RuntimeError(f'harness and Lean spec disagree on what the history {edits} means for atom {i}: {hm} / {a}')
+        if isinstance(o['cart'], list) and close3(o['cart'], rp['spec_cart']) and not close3(o['cart'], hm['cart']):
+            ctx.fail('C12|edit|cart_coords|model', f'after {edits}: atom {i} cart_coords {o["cart"]}, model of the object {hm["cart"]}',
+                     dict(case=sub([i]), stream='edit', expected=rp['spec_cart'], actual=o['cart'], model=hm['cart']), kind='correspondence')
+        # coordinates
+        if not close3(o['frac'], a['xyz'], 1e-12, 1e-12):
+            ctx.fail(f'C12|edit|{tag}|frac_coords', f'after {edits}: atom {i} has frac_coords {o["frac"]}, the history says {a["xyz"]}',
+                     dict(case=sub([i]), stream='edit', expected=a['xyz'], actual=o['frac']))
+        elif not close3(o['cart'], rp['spec_cart']):
+            ctx.fail(f'C12|edit|{tag}|cart_coords', f'after {edits}: atom {i} at {a["xyz"]} has cart_coords {o["cart"]}, the metric '
+                     f'tensor reference for its current position is {rp["spec_cart"]} (cell {case["cell"]})',
+                     dict(case=sub([i]), stream='edit', expected=rp['spec_cart'], actual=o['cart'], model=hm['cart'],
+                          model_before_repair=hm['cart_old']))
+        # Ueq
+        u = a['u']
+        iso = not any(u[2:]) and u[0] > 0
+        want = u[0] if iso else ru['spec_ueq']
+        tag = f'U-by={a["last_u"]}'
+        if not any(u[1:]) and not iso:
+            pass        # all-zero / negative isotropic value: outside the statement
+        elif not close(o['ueq'], want, 1e-12, REL):
+            ctx.fail(f'C12|edit|{tag}|ueq', f'after {edits}: atom {i} has U = {u}, Atom.ueq = {o["ueq"]}, one third of the trace of the '
+                     f'Cartesian tensor of its current U is {want} (cell {case["cell"]})',
+                     dict(case=sub([i]), stream='edit', expected=want, actual=o['ueq'], model=ru['ueq_aniso']))
+        # positive definiteness (six values written, away from the boundary)
+        if any(u[2:]) and ru['spec_pd_lo'] == ru['spec_pd_hi']:
+            wnpd = not ru['spec_pd']
+            if o['npd'] != wnpd:
+                ctx.fail(f'C12|edit|{tag}|npd|{"false-negative" if wnpd else "false-positive"}',
+                         f'after {edits}: atom {i} has U = {u} which is {"not " if wnpd else ""}positive definite, Atom.is_npd() = {o["npd"]} '
+                         f'(cell {case["cell"]})', dict(case=sub([i]), stream='edit', expected=wnpd, actual=o['npd'], model=ru['npd']))
+    n = len(st)
+    for i, (o, rp) in enumerate(zip(obs['pairs'], r['pairs'])):
+        j = (i + 1) % n
+        lasts = sorted({st[i]['last_xyz'], st[j]['last_xyz']})
+        for name in ('dist', 'cdist'):
+            if not close(o[name], rp['spec']):
+                ctx.fail(f'C12|edit|xyz-by={"+".join(lasts)}|{name}', f'after {edits}: distance of atoms {i}, {j} '
+                         f'({"atomic_distance of their frac_coords" if name == "dist" else "from their cart_coords"}) = {o[name]}, '
+                         f'metric tensor gives {rp["spec"]} for their current positions (cell {case["cell"]})',
+                         dict(case=sub([i, j]), stream='edit', expected=rp['spec'], actual=o[name]))
+
+
 # ------------------------------------------------------------------------------------------------
 # functions the hand-written model mirrors, with the digest (extract.digest: normalised AST, docstrings stripped) they had
-# when the model was written (= the tree with fixes/C12_1..3 applied). A different digest is not a violation: it only
+# when the model was written (= the tree with fixes/C12_1..5 applied). A different digest is not a violation: it only
 # raises the number of generated cases of a quick run (DESIGN 3.1), so that edited code gets the most scrutiny.
 
 MIRRORED = {
@@ -440,8 +653,16 @@ MIRRORED = {
     'shelxfile/atoms/atom.py::Atom.u_cart': '017ab2676bca573f',
     'shelxfile/atoms/atom.py::Atom.set_ueq': 'f63c1b694665e086',
     'shelxfile/atoms/atom.py::Atom.set_ucif': '3a3ebd1f1cb46f8f',
-    'shelxfile/atoms/atom.py::Atom.is_npd': '76fa665987c727c5',
+    'shelxfile/atoms/atom.py::Atom.is_npd': '82923b79b21f071d',
     'shelxfile/shelx/shelx.py::Shelxfile.frac_to_cart': '624ca994a0bda9b9',
+    'shelxfile/atoms/atom.py::Atom.ucif': '3ff4db41714bd6c8',
+    'shelxfile/atoms/atom.py::Atom.ueq': '318fec78ade17c79',
+    'shelxfile/atoms/atom.py::Atom.frac_coords': 'b99776f14c0a82f4',
+    'shelxfile/atoms/atom.py::Atom.cart_coords': '9bfa7000966b6d15',
+    'shelxfile/atoms/atom.py::Atom.to_isotropic': '1eecb9251fe637d1',
+    'shelxfile/atoms/atom.py::Atom.set_uvals': 'a5b2c8db88557538',
+    'shelxfile/atoms/atom.py::Atom.set_atom_parameters': '2fa34292756ea040',
+    'shelxfile/shelx/shelx.py::Shelxfile.add_atom': 'e9a7ca4d05f25b33',
 }
 
 
@@ -461,7 +682,7 @@ def run(ctx):
     ctx.rule = ('generated files: one CELL (triclinic, monoclinic in each setting, orthorhombic, tetragonal, hexagonal with gamma = 120, '
                 'rhombohedral, cubic; a, b, c in [2, 100]; volume radicand > 0.02), 3-6 atoms with coordinates in [-2, 2] and U tensors '
                 '(positive definite, indefinite incl. Cartesian eigenvalues of equal magnitude and opposite sign, negative definite, nearly '
-                'singular on either side, singular, diagonal, isotropic, six '
+                'singular on either side, singular, an exactly singular 2x2 principal block in an indefinite tensor, diagonal, isotropic, six '
                 'values whose last four sum to 0); distinct by (cell, coordinates or U); non-trivial = at least one angle differs from 90 '
                 '(and, for tensors, a non-zero off-diagonal U; for is_npd, the tensor is outside the 1e-9 boundary band)')
     ctx.assumptions = ['math.cos/sin/sqrt satisfy their algebraic relations up to rounding (hypotheses ValidCell, IsSqrt of the theorems)',
@@ -495,6 +716,12 @@ def run(ctx):
         cases.append(make_case(ctx.rng))
     for _ in range(8000 if thorough else (1000 if (changed or ctx.escalated) else 500)):     # the class on which an unshifted eigenvalue iteration is slow
         cases.append(make_case(ctx.rng, ukinds=['eqmod']))
+    for _ in range(4000 if thorough else (1200 if (changed or ctx.escalated) else 600)):      # a minor that is zero up to rounding
+        cases.append(make_case(ctx.rng, ukinds=['blocksing']))
+    for _ in range(20000 if thorough else (1500 if (changed or ctx.escalated) else 400)):   # histories on the parsed objects
+        c = make_case(ctx.rng)
+        c['edits'] = make_edits(ctx.rng, c)
+        cases.append(c)
     for i in range(0, len(cases), 400):
         evaluate(ctx, cases[i:i + 400])
     ctx.extra['max_relative_difference_impl_vs_metric_reference'] = dict(RESID)
